@@ -84,9 +84,11 @@ impl Lex {
     }
 
     pub fn next_nonws(&mut self) -> Xresult1<Tok> {
-        match self.next() {
-            Ok(Tok::Whitespace(_)) | Ok(Tok::Comment(_)) => self.next(),
-            tok => tok,
+        loop {
+            match self.next()? {
+                Tok::Whitespace(_) | Tok::Comment(_) => continue,
+                tok => break Ok(tok),
+            }
         }
     }
 
